@@ -7,7 +7,7 @@ perl -0pi -e "$expr" "$f"
 if git diff --quiet; then echo "MUTATION DID NOT APPLY"; exit 2; fi
 git diff | grep '^[+-]' | grep -v '^+++\|^---'
 for id in "$@"; do
-  out=$(cd /verif && ./check $id quick 2>&1); rc=$?
+  out=$(cd /verif && timeout 1500 ./check $id quick 2>&1); rc=$?
   echo "== $id rc=$rc"; echo "$out" | grep -E "VIOLATION|KNOWN|BUILD-FAILED|INCONCLUSIVE|HARNESS" | head -5
 done
 git checkout -- . 
